@@ -419,8 +419,12 @@ func judgePreviewTxIDs(t *testing.T, in *Input, res *Result) {
 	if ref.HarnessErr != "" {
 		return
 	}
-	res.Violations = append(res.Violations, Violation{Prop: "C14", Class: "preview-disturbs-ids", Step: broken.Step, Features: []string{broken.Class},
-		Detail: "with previews running concurrently: " + broken.Detail + "; the same requests and schedule without the previews keep the ids in sequence"})
+	class := "preview-disturbs-ids"
+	if !strings.HasPrefix(broken.Class, "handed-") {
+		class = "preview-changes-outcome-of-real-writes"
+	}
+	res.Violations = append(res.Violations, Violation{Prop: "C14", Class: class, Step: broken.Step, Features: []string{broken.Class},
+		Detail: "with previews running concurrently: " + broken.Detail + "; the same requests and schedule without the previews show no such break"})
 }
 
 func lockerEngine() *engine {
@@ -471,7 +475,7 @@ func diffEngine() *engine {
 
 func runDiff(t *testing.T) {
 	// the differential engine and, every other batch, the concurrent invariant form
-	if *fWorker%4 == 3 {
+	if *fWorker%2 == 1 {
 		*fProfiles = "preview"
 		runEngine(t, ledgerEngine(*fProp, loadKnown(*fKnown)))
 		return
